@@ -112,7 +112,8 @@ Section SxPrint.
     | _ => false
     end.
 
-  (* a text piece: escaped; its trailing `{` is escaped as well when a binding follows in the value *)
+  (* a text piece: escaped; its trailing `{` is escaped as well when a `{` follows in the value (a binding, or a literal piece
+     that starts with `{`) *)
   Definition text_piece (binding_follows : bool) (s : str) : str :=
     let t := escape_html_body s in
     if binding_follows then
@@ -132,11 +133,14 @@ Section SxPrint.
     | _ => false
     end.
 
-  Fixpoint starts_with_binding (e : expr) : bool :=
+  (* whether the text printed for the pieces starts with `{` (a binding, or a literal that starts
+     with `{`); None when nothing is printed for them *)
+  Fixpoint starts_with_brace (e : expr) : option bool :=
     match e with
-    | EToStr _ => true
-    | EBin BAdd l _ => starts_with_binding l
-    | _ => false
+    | EToStr _ => Some true
+    | EStr s => match s with c :: _ => Some (c =? 123) | [] => None end
+    | EBin BAdd l r => match starts_with_brace l with Some b => Some b | None => starts_with_brace r end
+    | _ => Some true
     end.
 
   Fixpoint sx_split (e : expr) (whole follows : bool) : str :=
@@ -148,7 +152,7 @@ Section SxPrint.
     | EToStr v => binding v
     | EBin BAdd l r =>
         if is_text_piece l && is_text_piece r && negb (whole && is_blank_literals e)
-        then sx_split l false (starts_with_binding r) ++ sx_split r false follows
+        then sx_split l false (match starts_with_brace r with Some b => b | None => follows end) ++ sx_split r false follows
         else binding e
     | _ => binding e
     end.
